@@ -109,7 +109,9 @@ def rule_G9(ck):
                     if a.id in params or b.id in params:
                         continue
                     # both names bound together by one loop / unpacking target: a stored (start, end) pair
-                    together = any(isinstance(n, (ast.For, ast.comprehension)) and {a.id, b.id} <= {x.id for x in ast.walk(n.target) if isinstance(x, ast.Name)} for n in ast.walk(fn))
+                    together = any((isinstance(n, (ast.For, ast.comprehension)) and {a.id, b.id} <= {x.id for x in ast.walk(n.target) if isinstance(x, ast.Name)})
+                                   or (isinstance(n, ast.Assign) and any(isinstance(t_, (ast.Tuple, ast.List)) and {a.id, b.id} <= {x.id for x in ast.walk(t_) if isinstance(x, ast.Name)} for t_ in n.targets))
+                                   for n in ast.walk(fn))
                     if together and (a.id, b.id) == ("ctx_start", "ctx_end") or together and a.id.replace("start", "") == b.id.replace("end", ""):
                         continue
                     ck.unknown(f"{q}: span ({a.id}, {b.id}): snapshot definitions not found")
